@@ -180,7 +180,9 @@ def predicate(case, out):
                 if b[0] in firsts:
                     if a[3] is None:
                         if b[1] is not None:
-                            bad.append(("first-proximal-missing", {"segment": b[0], "proximal": jq(ref["aprox"][b[0]])}, {"proximal": None}))
+                            bad.append(("first-proximal-missing:given-root-is-inner-segment" if b[0] == root
+                                        else "first-proximal-missing:below-branch-point",
+                                        {"segment": b[0], "proximal": jq(ref["aprox"][b[0]])}, {"proximal": None}))
                     elif a[3] != ref["aprox"][b[0]]:
                         bad.append(("first-proximal-wrong", jq(ref["aprox"][b[0]]), jq(a[3])))
                 elif a[3] is not None:
@@ -216,8 +218,6 @@ def predicate(case, out):
 
 
 def witness_key(clause, case):
-    if clause == "first-proximal-missing":
-        return "C16:first-proximal-missing:given-root-is-inner-segment"
     return "C16:" + clause
 
 
